@@ -92,6 +92,10 @@ def make_plan(seed: int, tier: str) -> dict:
             "n_iter": st.randint(4, 10), "target": st.randint(0, 63), "perm_seed": st.randint(0, 999),
             "schedule": st.choice(["shuffled", "threads", "threads"]), "workers": st.randint(2, 4), "n_jobs": st.choice([2, 3, 4]),
             "hashseed": st.choice([1, 7, 123, 4242])}
+    if algo != "scipy_minimize" and st.bernoulli(0.3):
+        plan["sharp"] = True
+        plan["n"] = st.choice([2, 2, 3])
+        plan["n_iter"] = st.randint(8, 16)
     if algo == "scipy_minimize" and st.bernoulli(0.35):
         # documented optimiser options: a small iteration budget makes some individuals stop unconverged (their "convergence history"
         # must stay their own), another method / no jacobian exercises the other code paths
@@ -104,10 +108,20 @@ def make_plan(seed: int, tier: str) -> dict:
     return plan
 
 
+def _settings(plan, kind, nf):
+    d = ac.handwritten_settings(Stream(plan["gseed"], "model"), kind, nf)
+    if plan.get("sharp") and "noise_std" in d["parameters"]:
+        # very informative individuals: almost every proposal has an acceptance ratio that underflows to 0, so whole steps are
+        # rejected for everybody at once (the draw for each decision must still be consumed)
+        ns = d["parameters"]["noise_std"]
+        d["parameters"]["noise_std"] = [round(x * 0.05, 6) for x in ns] if isinstance(ns, list) else round(ns * 0.05, 6)
+    return d
+
+
 def build(plan):
     kind, nf = plan["kind"], plan["nf"]
     with ac.quiet():
-        model = ac.load_from_settings(ac.handwritten_settings(Stream(plan["gseed"], "model"), kind, nf))
+        model = ac.load_from_settings(_settings(plan, kind, nf))
         df = workload.make_cohort(Stream(plan["gseed"], "cohort"), kind=kind, n=plan["n"], n_features=nf, max_visits=plan["max_visits"], min_visits=1,
                                   missing_rate=plan["missing"], ensure_two_visits=0, id_prefix="S")
     return model, df
@@ -131,7 +145,7 @@ def peer_changed(df, plan, keep_id, kind):
 def personalise(model_settings_plan, df, kind, algo, plan, *, schedule="sequential", workers=2, n_jobs=1, real_pool=False, C=None, log=None):
     """One personalisation of `df` by a fresh model under the id-addressed seams; returns (ip dict, world, exc)."""
     with ac.quiet():
-        model = ac.load_from_settings(ac.handwritten_settings(Stream(plan["gseed"], "model"), kind, plan["nf"]))
+        model = ac.load_from_settings(_settings(plan, kind, plan["nf"]))
         data = workload.to_data(df, kind)
     ids = list(dict.fromkeys(df["ID"]))
     cfg = {"gseed": plan["gseed"], "decisions": {}, "schedule": schedule, "workers": workers}
@@ -218,6 +232,8 @@ def run_plan(plan: dict) -> dict:
     target = ids[plan["target"] % len(ids)]
     where = f"kind={kind} algo={algo} relation={rel} n={len(ids)} target={target}"
     C[f"relation.{rel}"] += 1
+    if plan.get("sharp"):
+        C["probe.sharp_likelihood_cohort"] += 1
     C[f"algo.{algo}"] += 1
     base, wbase, ebase = personalise(None, df, kind, algo, plan, C=C, log=log)
     if ebase is not None:
